@@ -6,6 +6,7 @@ import (
 	"fmt"
 	"sort"
 	"strings"
+	"sync"
 
 	"github.com/ohler55/slip"
 )
@@ -14,6 +15,9 @@ import (
 // is added or removed while the user is interacting with a Completer instance
 // the lo, hi, and index could become offset.
 var completerWords []string
+
+// completerMu guards completerWords: the set/unset/defun hooks run on whichever thread defines something.
+var completerMu sync.Mutex
 
 // Completer provides completion choices given a partial word. Words are
 // stored in a slice in sorted order to optimize not only the search for a
@@ -75,6 +79,12 @@ func addHook(p *slip.Package, key string) {
 // words is returned along with the low and high indices into the word slice
 // for matches that begin with the provided word.
 func WordMatch(word string) (words []string, lo, hi int) {
+	completerMu.Lock()
+	defer completerMu.Unlock()
+	return wordMatch(word)
+}
+
+func wordMatch(word string) (words []string, lo, hi int) {
 	if len(completerWords) == 0 {
 		initWords()
 	}
@@ -124,11 +134,13 @@ func WordMatch(word string) (words []string, lo, hi int) {
 }
 
 func addWord(word string) {
+	completerMu.Lock()
+	defer completerMu.Unlock()
 	if len(completerWords) == 0 {
 		initWords()
 	}
 	word = strings.ToLower(word)
-	words, _, _ := WordMatch(word)
+	words, _, _ := wordMatch(word)
 	if words == nil {
 		completerWords = append(completerWords, word)
 		sort.Strings(completerWords)
@@ -136,8 +148,10 @@ func addWord(word string) {
 }
 
 func removeWord(word string) {
+	completerMu.Lock()
+	defer completerMu.Unlock()
 	word = strings.ToLower(word)
-	if words, lo, hi := WordMatch(word); words != nil {
+	if words, lo, hi := wordMatch(word); words != nil {
 		for ; lo <= hi; lo++ {
 			if words[lo] == word {
 				break
